@@ -1158,7 +1158,10 @@ func funMin(nums ...*decimal.Big) (*decimal.Big, error) {
 }
 
 func funRound(v *decimal.Big) (*decimal.Big, error) {
-	return newDecimalBig().Round(0), nil
+	// round the argument (not a fresh zero) to the nearest integer, ties away from zero
+	result := newDecimalBig().Copy(v)
+	result.Context.RoundingMode = decimal.ToNearestAway
+	return result.RoundToInt(), nil
 }
 
 func funRoundBank(v *decimal.Big) (*decimal.Big, error) {
